@@ -7,6 +7,17 @@ Require Export C09_Model.
 Import ListNotations.
 Open Scope Z_scope.
 
+(* integer lists in the case files are written (zc 1 (zc (-2) zn)): both arguments are parsed in Z scope, and
+   explicit constructors are read an order of magnitude faster than the list notation *)
+Definition zn : list Z := nil.
+Definition zc (x : Z) (l : list Z) : list Z := x :: l.
+Arguments zc x%Z l.
+Definition bn : list (Z * list Z) := nil.
+Definition bc (st : Z) (ms : list Z) (l : list (Z * list Z)) : list (Z * list Z) := (st, ms) :: l.
+Arguments bc st%Z ms l.
+Definition pn : list (list Z * list Z) := nil.
+Definition pc (f r : list Z) (l : list (list Z * list Z)) : list (list Z * list Z) := (f, r) :: l.
+
 (* ------------------------------------------------------------------ observations *)
 (* a block built from an integer, then further integers offered to it, then both iterations with count n *)
 Inductive bobs := BErr | BOk (st : Z) (acc : list bool) (fwd rev : iobs).
@@ -88,7 +99,7 @@ Definition case_matches (c : case) : bool :=
   | CMarshal b bytes r =>
       wfb b && zlist_eqb bytes (marshal b) && ures_eqb r (unmarshal zero bytes)
   | CUnm via st bytes r =>
-      bytes_okb bytes &&
+      (0 <=? via) && (via <=? 2) && bytes_okb bytes &&
       dres_eqb r (if via =? 0 then from_unm st (unmarshal zero bytes)
                   else if via =? 1 then big_from_data st bytes else tip_from_data st bytes)
   | CBig v us n o =>
@@ -109,7 +120,6 @@ Definition case_matches (c : case) : bool :=
   end.
 
 (* ------------------------------------------------------------------ holds: the property's clauses *)
-Definition memz (x : Z) (l : list Z) : bool := existsb (Z.eqb x) l.
 Definition card (b : bitmap) : Z := zlen (filter (member b) z1024).
 
 (* the set a byte string denotes (None: it denotes nothing and must be refused):
@@ -121,7 +131,7 @@ Definition denoted (bs : list Z) : option (Z -> bool) :=
   let n := zlen bs in
   if n =? 0 then Some (fun _ => false)
   else if n =? 128 then Some (fun j => Z.testbit (nth (Z.to_nat (j / 8)) bs 0) (j mod 8))
-  else if (n <? 128) && Z.even n && forallb (fun u => u <=? 1023) (pair_vals bs) then Some (fun j => memz j (pair_vals bs))
+  else if (n <? 128) && (n mod 2 =? 0) && forallb (fun u => u <=? 1023) (pair_vals bs) then Some (fun j => memz j (pair_vals bs))
   else None.
 
 (* l is the first n elements of the set S taken in the strict order R *)
